@@ -108,7 +108,7 @@ def replica_envs(rng, n=3):
         out.append({"env": {"hashseed": rng.randint(1, 4294967295), "locale": loc},
                     "disk_cfg": {"default_encoding": enc}})
     if rng.random() < 0.3:
-        out[-1]["env"]["optimize"] = True
+        out[-1]["env"]["optimize"] = rng.choice([1, 2])
     return out
 
 
@@ -208,7 +208,7 @@ def plan_serialise(seed, tier):
                     cands = [w for w in written if w[1] in HAS_READER]
                     if cands:
                         path, fmt, _h = rng.choice(cands)
-                        if rng.random() < (0.25 if nonascii_bias else 0.08):
+                        if rng.random() < (0.35 if nonascii_bias else 0.2):
                             # a bad medium damages one multi-byte character: the file is not
                             # UTF-8 any more and must not be read as if it were
                             b.op(op="CORRUPT", path=path, kind="utf8_break", frac=rng.random(),
@@ -225,6 +225,11 @@ def plan_serialise(seed, tier):
     if buggify:
         for rep in b.plan["replicas"][1:]:
             rep["disk_cfg"].update(b.disk_cfg(True))
+    if rng.random() < 0.3:
+        # fresh interpreter per model: the bytes a model serialises to must not depend on what
+        # the process has serialised before
+        b.plan["replicas"].append({"isolate": True, "env": {"hashseed": 0, "locale": "utf8"},
+                                   "disk_cfg": {"default_encoding": "utf-8"}})
     return b.plan
 
 
@@ -237,7 +242,11 @@ def _seg_env(rng):
     env = {"hashseed": rng.choice([0, rng.randint(1, 4294967295)]),
            "locale": rng.choice(["utf8", "utf8", "ascii", "utf8mode"])}
     if rng.random() < 0.15:
-        env["optimize"] = True       # the interpreter runs with -O
+        env["optimize"] = rng.choice([1, 1, 2])     # the interpreter runs with -O / -OO
+    if rng.random() < 0.1:
+        env["warn_error"] = True     # ... with UserWarning turned into an error
+    if rng.random() < 0.12:
+        env["log_debug"] = True      # ... with DEBUG logging enabled
     return env
 
 
@@ -540,7 +549,9 @@ def plan_ops(seed, tier, metrics_bias=False):
                 b.op(**op)
             elif k < 0.8:
                 attr = rng.choice(["cost", "x", "size", "Weight"])
-                b.op(op="RANDATTR", m=h, attr=attr, domain=_rand_domain(rng),
+                dom = _rand_domain(rng)
+                b.op(op="RANDATTR", m=h, attr=attr, domain=dom, withdraw=dom is None and
+                     rng.random() < 0.6,
                      only_leaf=rng.random() < 0.4,
                      mode=rng.choice(["seeded", "seeded", "low", "high", "ends", "alternate"]),
                      seed=rng.randint(0, 2 ** 31), obj=rng.choice(["fresh", "reuse"]))
@@ -730,7 +741,7 @@ def plan_third_party(seed, tier):
     for _s in range(rng.choice([1, 1, 2])):
         env = _seg_env(rng)
         if rng.random() < 0.15:
-            env["optimize"] = True
+            env["optimize"] = rng.choice([1, 2])
         b.segment(env=env, disk_cfg=b.disk_cfg(buggify), cwd=rng.choice(DIRS))
         _canary(b, rng)
         for _d in range(rng.randint(3, 9 if tier == "quick" else 20)):
